@@ -11,6 +11,14 @@ impl IoWrapper {
         Self { receiver: init_input_thread( )}
     }
 
+    /// A wrapper without a reader thread: the verification driver owns stdin itself.
+    #[cfg(jence_verif)]
+    pub fn verif_detached() -> Self {
+        let (tx, rx) = mpsc::channel::<String>();
+        std::mem::forget(tx);
+        Self { receiver: rx }
+    }
+
     pub fn try_read_line(&self) -> Option<String> {
         match self.receiver.try_recv() {
             Ok(line) => Some(line.trim().to_string()),
